@@ -576,7 +576,7 @@ _SS = _c18_methods(SPOOLED_STRING, [
      'result': 'Int', 'tie_theorem': 'C18.src_ss_traverse_eq_model'},
     {'py': 'seek', 'name': 'seek0', 'params': {'pos': 'Int'}, 'fixed': {'mode': 0}, 'result': 'Int',
      'tie_theorem': 'C18.src_ss_seek0_eq_model'},
-    {'py': 'len', 'name': 'len', 'params': {}, 'result': 'Int', 'tie_theorem': 'C18.src_ss_len_closed'},
+    {'py': 'len', 'name': 'len', 'params': {}, 'result': 'Int', 'tie_theorem': 'C18.src_ss_len_eq_model'},
     {'py': 'seek', 'name': 'seek', 'params': {'pos': 'Int', 'mode': 'Int'}, 'result': 'Int',
      'tie_theorem': 'C18.src_ss_seek_bad_mode'},
     {'py': 'rollover', 'name': 'rollover', 'params': {}, 'result': 'None',
